@@ -152,6 +152,12 @@ def rand_case(rng, order, d, n, flags=None, tmType=None, smType=None, k=0, steps
                 steps=(rng.choice([1, 2, 3, 7]) if steps is None else steps),
                 t0=rng.choice([0.0, gen.dyadic(rng, -20, 20, 2)]), k=k)
     c.h = [gen.dyadic(rng, 0.25, 3.0, 3) for _ in range(n)]
+    if rng.random() < 0.15:
+        # reference durations a hair away from 1 (the branch point of the default time map), on both sides
+        for i in range(n):
+            if rng.random() < 0.6:
+                c.h[i] = rng.choice([1.0 - 2.0 ** -21, 1.0 - 2.0 ** -30, 1.0 - 2.0 ** -44, 0.9999996, 0.99999995, 1.0 + 2.0 ** -21,
+                                     1.0 + 2.0 ** -40, 1.0, math.nextafter(1.0, 0.0), math.nextafter(1.0, 2.0)])
     c.P = gen.points(rng, n + 1, d, mag=4.0, short=short)
     # reference waypoints of constrained points must lie on the constraint surface (map round-trip hypothesis)
     for i in range(n + 1):
@@ -160,6 +166,12 @@ def rand_case(rng, order, d, n, flags=None, tmType=None, smType=None, k=0, steps
             c.P[i] = [float(v) for v in pt]
     c.bc = gen.bc_vals(rng, order, d, mag=2.0, short=short, zero_prob=0.1)
     c.spec = rand_spec(rng)
+    if rng.random() < 0.12:
+        # a wall-clock start time; the running cost then does not depend on global time (kt = 0), so that cost and gradient
+        # must be what they are for any other start time - in particular the integration length of a segment is its decoded
+        # duration, not a difference of absolute knot times
+        c.t0 = rng.choice([1.7e9 + 0.37, -4.1e10 - 0.7, 1.5e12 + 0.25])
+        c.spec['kt'] = 0.0
     c.x = rand_x(rng, c)
     return c
 
